@@ -94,7 +94,7 @@ class VGen:
         if c == "int":
             cc = r.choice(["float", "int"])
             return B(r.choice(["<", "<=", ">", ">=", "==", "!="]), self.scalar(env, cc, d - 1), self.scalar(env, cc, d - 1))
-        return B("/", self.scalar(env, c, d - 1), F(r.choice(["2.0", "4.0", "0.5"])))
+        return B("/", self.scalar(env, c, d - 1), F(r.choice(["2.0", "4.0", "0.5", "3.0", "0.3"])))
 
     def ctor(self, env, c, n, d):
         r = self.rng
@@ -145,7 +145,7 @@ class VGen:
                 return B("*", v, s)
             if k < 0.75:
                 return B("*", s, v)
-            return B("/", v, F(r.choice(["2.0", "4.0", "0.5"])) if c == "float" else I(r.choice([2, 3, -2])))
+            return B("/", v, F(r.choice(["2.0", "4.0", "0.5", "3.0", "7.0", "0.3", "1.1"])) if c == "float" else I(r.choice([2, 3, -2])))
         if x < 0.86:
             # swizzle read: any order and repetition over the components of a source of any size
             m = r.choice([2, 3, 4])
@@ -187,7 +187,7 @@ class VGen:
             k = r.random()
             s = self.scalar(env, "float", d - 1)
             m = self.matrix(env, t, d - 1)
-            return B("*", m, s) if k < 0.4 else B("*", s, m) if k < 0.7 else B("/", m, F(r.choice(["2.0", "4.0"])))
+            return B("*", m, s) if k < 0.4 else B("*", s, m) if k < 0.7 else B("/", m, F(r.choice(["2.0", "4.0", "3.0", "1.5", "0.7"])))
         return B("*", self.matrix(env, t, d - 1), self.matrix(env, t, d - 1))
 
     def expr(self, env, t, d):
